@@ -47,6 +47,11 @@ type duplexHTTPCall struct {
 
 	errMu sync.Mutex
 	err   error
+
+	// readClosed is closed by the first CloseRead. It releases the goroutine
+	// that watches the context on behalf of net/http (see abortOnContextDone).
+	readClosedOnce sync.Once
+	readClosed     chan struct{}
 }
 
 func newDuplexHTTPCall(
@@ -72,6 +77,7 @@ func newDuplexHTTPCall(
 		requestBodyWriter: pipeWriter,
 		request:           request,
 		responseReady:     make(chan struct{}),
+		readClosed:        make(chan struct{}),
 	}
 	if err != nil {
 		// We can't construct a request, so we definitely can't send it over the
@@ -154,11 +160,20 @@ func (d *duplexHTTPCall) Read(data []byte) (int, error) {
 		return 0, fmt.Errorf("nil response from %v", d.request.URL)
 	}
 	n, err := d.response.Body.Read(data)
+	if err != nil && !errors.Is(err, io.EOF) {
+		if ctxErr := d.ctx.Err(); ctxErr != nil {
+			// However the transport words it, a read that fails once the context
+			// is done failed because the call was canceled or timed out.
+			err = ctxErr
+		}
+	}
 	return n, wrapIfRSTError(wrapIfContextError(err))
 }
 
 func (d *duplexHTTPCall) CloseRead() error {
 	d.BlockUntilResponseReady()
+	// Keep watching the context until the body has been drained and closed.
+	defer d.readClosedOnce.Do(func() { close(d.readClosed) })
 	if d.response == nil {
 		return nil
 	}
@@ -265,6 +280,7 @@ func (d *duplexHTTPCall) makeRequest() {
 		return
 	}
 	d.response = response
+	go d.abortOnContextDone()
 	if err := d.validateResponse(response); err != nil {
 		d.SetError(err)
 		return
@@ -279,6 +295,22 @@ func (d *duplexHTTPCall) makeRequest() {
 			response.ProtoMajor,
 			response.ProtoMinor,
 		))
+	}
+}
+
+// abortOnContextDone fails the call when its context ends while the response
+// is still open. net/http's HTTP/2 transport watches the request's context
+// only until it has returned the response; afterwards it notices cancellation
+// from the goroutine that sends the request body, which can't look while it's
+// blocked reading an open but idle body. A Receive or CloseResponse waiting
+// for the server would then never return, and the server would never learn
+// that the client has gone. SetError closes the request body, which wakes the
+// transport up and makes it abort the stream.
+func (d *duplexHTTPCall) abortOnContextDone() {
+	select {
+	case <-d.ctx.Done():
+		d.SetError(d.ctx.Err())
+	case <-d.readClosed:
 	}
 }
 
